@@ -21,6 +21,7 @@ import (
 	"github.com/cedar-policy/cedar-go/verif/c18"
 	"github.com/cedar-policy/cedar-go/verif/c10"
 	"github.com/cedar-policy/cedar-go/verif/c16"
+	"github.com/cedar-policy/cedar-go/verif/c17"
 	"github.com/cedar-policy/cedar-go/verif/c20"
 	"github.com/cedar-policy/cedar-go/verif/core"
 )
@@ -41,6 +42,7 @@ var registry = map[string]func() *core.Check{
 	"C18": c18.Check,
 	"C10": c10.Check,
 	"C16": c16.Check,
+	"C17": c17.Check,
 	"C20": c20.Check,
 }
 
